@@ -1422,6 +1422,7 @@ type cliCase struct {
 	Text   string   `json:"text"`
 	Flags  []string `json:"flags"`
 	Muts   []string `json:"mutations"`
+	Out    string   `json:"out,omitempty"` // reformat sub-command: "" = fasta, phylip, nexus, clustal, paml, tnt
 }
 
 func TestCLI(t *testing.T) {
@@ -1460,13 +1461,20 @@ func TestCLI(t *testing.T) {
 		if rapid.IntRange(0, 3).Draw(t, "ign") == 0 {
 			c.Flags = append(c.Flags, "--ignore-identical", fmt.Sprint(rapid.IntRange(0, 2).Draw(t, "ignv")))
 		}
+		// every reformat sub-command has its own loop over the parsed stream
+		c.Out = rapid.SampledFrom([]string{"", "", "", "phylip", "nexus", "clustal", "paml", "tnt"}).Draw(t, "outformat")
 		return c
 	}, func(c cliCase) (o pbt.Outcome, err error) {
 		in := cli.TempFile(dir, ".in", string(c.Data))
 		defer os.Remove(in)
-		args := append([]string{"reformat", "fasta", "-i", in}, c.Flags...)
+		sub := c.Out
+		if sub == "" {
+			sub = "fasta"
+		}
+		args := append([]string{"reformat", sub, "-i", in}, c.Flags...)
 		r := cli.Run("", args...)
 		o.Class("family=%s", c.Family)
+		o.Class("reformat %s", sub)
 		if r.TimedOut {
 			return o, fmt.Errorf("goalign %v did not return within 60 s", args)
 		}
@@ -1490,7 +1498,50 @@ func TestCLI(t *testing.T) {
 			o.NonTrivial = len(c.Muts) > 0
 			return o, nil
 		}
-		rows, perr := cli.ParseFasta(r.Stdout)
+		var rows []gen.Row
+		var perr error
+		switch sub {
+		case "fasta":
+			rows, perr = cli.ParseFasta(r.Stdout)
+		case "phylip":
+			var alis [][]gen.Row
+			alis, perr = cli.ParsePhylipStream(r.Stdout)
+			if perr != nil {
+				// relaxed Phylip cannot carry every name goalign accepts (a FASTA name with a blank
+				// reads as a name and residues): the small reader gives up, the output is only
+				// required to be there
+				if strings.TrimSpace(r.Stdout) == "" {
+					return o, fmt.Errorf("goalign %v: status 0 and an empty output (stderr %q)", args, trunc(r.Stderr, 300))
+				}
+				o.Ambiguous++
+				o.Class("%s: accepted", c.Family)
+				o.NonTrivial = true
+				return o, nil
+			}
+			if perr == nil {
+				if len(alis) == 0 {
+					return o, fmt.Errorf("goalign %v: status 0 and no alignment in the output (stderr %q)", args, trunc(r.Stderr, 300))
+				}
+				if !phylipLike && len(alis) != 1 {
+					return o, fmt.Errorf("goalign %v: status 0 and %d alignments in the output", args, len(alis))
+				}
+				for _, a := range alis {
+					if len(a) == 0 {
+						return o, fmt.Errorf("goalign %v: status 0 and an alignment without sequence in the output", args)
+					}
+				}
+				rows = alis[0]
+			}
+		default:
+			// the other output formats have no independent reader here: status 0 must come with
+			// an output that holds at least the names it was given room for
+			if strings.TrimSpace(r.Stdout) == "" {
+				return o, fmt.Errorf("goalign %v: status 0 and an empty output (stderr %q)", args, trunc(r.Stderr, 300))
+			}
+			o.Class("%s: accepted", c.Family)
+			o.NonTrivial = true
+			return o, nil
+		}
 		if perr != nil {
 			return o, fmt.Errorf("goalign %v: status 0 but unreadable output: %v", args, perr)
 		}
